@@ -69,6 +69,14 @@ def cases(tier: str, seed: int) -> List[Dict[str, Any]]:
                         for entry in ("raw", "SGD", "AdamW"):
                             out.append({"st": st, "form": "groups", "lrkind": lrkind, "wd": wd,
                                         "mix": mix, "indep": indep, "entry": entry, "seed": seed})
+        if anyown:
+            # MIXED kinds: a tensor learning rate in a group next to a float global one, and the converse
+            for lrkind in ("own_tensor", "glob_tensor"):
+                for mix in (0, 1):
+                    for indep in (1, 0):
+                        for entry in ("raw", "SGD", "AdamW"):
+                            out.append({"st": st, "form": "groups", "lrkind": lrkind, "wd": 0.01,
+                                        "mix": mix, "indep": indep, "entry": entry, "seed": seed})
         for pform in ("generator", "tuple", "iter"):
             for mix in (0, 1):
                 for entry in ("raw", "SGD", "AdamW"):
@@ -175,8 +183,10 @@ def run_case(case: Dict[str, Any]) -> Dict[str, Any]:
         "AdamW": {"betas": (0.8, 0.9), "eps": 1e-6},
     }[entry]
 
-    def mklr(v: float) -> Any:
-        return v if lrkind == "float" else torch.tensor(v, dtype=torch.float64)
+    def mklr(v: float, which: str = "own") -> Any:
+        if lrkind == "float" or (lrkind == "own_tensor" and which == "glob") or (lrkind == "glob_tensor" and which == "own"):
+            return v
+        return torch.tensor(v, dtype=torch.float64)
 
     shared_own = torch.tensor(OWN_LR, dtype=torch.float64)
     params: List[Any] = []
@@ -233,7 +243,7 @@ def run_case(case: Dict[str, Any]) -> Dict[str, Any]:
         arg = tuple(params)
     else:
         arg = (p for p in params)
-    glob_lr = mklr(GLOBAL_LR) if lrkind != "shared_own" else torch.tensor(GLOBAL_LR, dtype=torch.float64)
+    glob_lr = mklr(GLOBAL_LR, "glob") if lrkind != "shared_own" else torch.tensor(GLOBAL_LR, dtype=torch.float64)
     before = _snap(groups_in)
     before_lr = _snap(glob_lr)
     init_vals = [p.detach().clone() for p in params]
@@ -306,7 +316,7 @@ def run_case(case: Dict[str, Any]) -> Dict[str, Any]:
             if not s["tagged"] or not isinstance(g["lr"], torch.Tensor):
                 continue
             ptr = g["lr"].data_ptr()
-            if id(g["lr"]) in caller or ptr in {t.data_ptr() for t in [glob_lr, shared_own]}:
+            if id(g["lr"]) in caller or ptr in {t.data_ptr() for t in [glob_lr, shared_own] if isinstance(t, torch.Tensor)}:
                 viol.append({"key": ident + "|lr_aliases_caller", "msg": f"group {i}"})
                 break
             if ptr in seen:
